@@ -37,6 +37,20 @@ theorem thread_keeps_parent_flags (s : Sys) (tid fl : Nat) (h : s[tid]? = some f
 theorem sandboxOp_guarded (fl f : Nat) (h : fl &&& capSandbox ≠ 0) : sandboxOp fl f = none :=
   Sound.sandboxOp_guarded fl f h
 
+/-- ★ corelib.c `janet_core_sandbox` (`(sandbox :k1 :k2 …)`, model `sandboxCfun` over the keyword table): when it returns,
+    every capability the table lists for every keyword given is disabled, nothing has been re-enabled, and the step is a
+    `sandboxOp` (so the theorems above cover it). -/
+theorem sandboxCfun_disables (tbl : List (String × Nat)) (fl fl' : Nat) (kws : List String)
+    (h : sandboxCfun tbl fl kws = some fl') :
+    subMask fl fl' = true ∧ (∀ k ∈ kws, ∃ mk, kwLookup tbl k = some mk ∧ subMask mk fl' = true) ∧
+    ∃ m, sandboxMask tbl 0 kws = some m ∧ sandboxOp fl m = some fl' :=
+  Sound.sandboxCfun_disables tbl fl fl' kws h
+
+/-- an unknown keyword panics before anything changes -/
+theorem sandboxCfun_unknown (tbl : List (String × Nat)) (fl : Nat) (kws : List String) (k : String) (hk : k ∈ kws)
+    (hu : kwLookup tbl k = none) : sandboxCfun tbl fl kws = none :=
+  Sound.sandboxCfun_unknown tbl fl kws k hk hu
+
 /-! ### soundness of the certificate checker, for every graph and certificate -/
 
 /-- ★ Soundness lifted through re-entrant calls: let the interpreter run ANY sequence of entry-point calls and
@@ -111,6 +125,20 @@ theorem sandbox_enforced_addr (F0 c F md : Nat) (fn nm : String)
     (hlt : c < graph.size) (hc : (graph.node c).op = .libc fn nm) (R : Nat) (hR : R ∈ need fn nm md) (hdis : subMask R F0 = true) :
     ¬ Ob (graph.withEntries (addrEntries sliceIds addressTaken)) true 0 F0 0 c F md :=
   Sound.checker_sound_entry_addr need graph cert gen_certOK sliceIds addressTaken gen_entriesCover F0 c F md fn nm hlt hc R hR hdis
+
+open JanetModel.Gen.Sandbox in
+/-- every `JANET_SANDBOX_*` capability of the header has a keyword of the regenerated `sandbox_options[]` that disables
+    exactly it, and `:all` disables every one (a capability added to the header without a keyword fails here; one added
+    without a line in `Cap.capTable` fails `gen_tables`) -/
+theorem gen_keywords : keywordsCover options defines = true := by decide +kernel
+
+open JanetModel.Gen.Sandbox in
+/-- the regenerated shape of thread start is `SysOp.spawn` (child's word := parent's word, at every hand-over site) -/
+theorem gen_threadStart : threadStartOK threadStart = true := by decide +kernel
+
+/-- non-vacuity: a hand-over that does not pass the flag word is rejected -/
+example : threadStartOK [("janet_go_thread_subr", "janet_init; flags := msg.argi"), ("cfun_ev_thread", "unverified hand-over via janet_ev_threaded_call"),
+    ("janet_ev_threaded_await", "msg.argi := parameter argi; janet_ev_threaded_call(fp, msg)")] = false := by decide
 
 open JanetModel.Gen.Sandbox in
 /-- the instance of `checker_sound_entry` for the program as it is now -/
